@@ -470,6 +470,10 @@ static FitCase genSills()
 {
   FitCase c = genFitCommon(true);
   c.opt.intrinsic = enabled("intrinsic") ? G::pct(15) : 0;
+  // known finding C17-fitting-sills-constant-sill (replay file only, out-of-bounds read): both sills-only entry points
+  // read the vector of constant sills that only model_auto_fit expands
+  if (c.constSill > 0 && !(enabled("sills-constsill") && (c.nvar == 1 || enabled("constsill-multivar")))) c.constSill = 0.;
+  if (c.constSill > 0) c.api = 0;
   return c;
 }
 
@@ -1243,9 +1247,17 @@ static void runSills(const FitCase& c, Ctx& ctx)
 {
   resetGlobals(c.ndim);
   labelFit(c, ctx);
-  ctx.label(c.api == 0 ? "api:model_fitting_sills" : "api:ModelOptimSillsVario");
   std::unique_ptr<Vario> v = buildVario(c, ctx);
   if (!v) { ctx.label("vario:not-built"); return; }
+  // known finding C17-sills-new-empty-lag (replay file only, heap overflow): ModelOptimSillsVario sizes its compressed
+  // arrays with the number of usable lags but fills them with every lag, so it is only called on variograms without
+  // any unusable lag unless C17_ENABLE=sills-new-empty-lag
+  int api = c.api;
+  if (api == 1 && !enabled("sills-new-empty-lag"))
+    for (int id = 0; id < v->getDirectionNumber(); id++)
+      for (int k = 0; k < v->getDirSize(id); k++)
+        if (!v->isLagCorrect(id, k)) api = 0;
+  ctx.label(api == 0 ? "api:model_fitting_sills" : "api:ModelOptimSillsVario");
   int usable = 0;
   for (int id = 0; id < v->getDirectionNumber(); id++)
     for (int k = 0; k < v->getDirSize(id); k++)
@@ -1271,7 +1283,7 @@ static void runSills(const FitCase& c, Ctx& ctx)
   Option_VarioFit ov = buildOptvar(o);
   Option_AutoFit ma = buildMauto(o);
   int err;
-  if (c.api == 0)
+  if (api == 0)
   {
     ctx.at("model_fitting_sills");
     err = model_fitting_sills(v.get(), m.get(), cs, ov, ma);
@@ -1282,14 +1294,14 @@ static void runSills(const FitCase& c, Ctx& ctx)
     ModelOptimSillsVario mo(m.get(), &cs, ma, ov);
     err = mo.fit(v.get(), o.wmode, false);
   }
-  ctx.sig = sigFit(c) ^ (uint64_t)(c.api + 1);
+  ctx.sig = sigFit(c) ^ (uint64_t)(api + 1);
   ctx.nontrivial(c.nvar >= 2 || c.constSill > 0 || c.dirs.size() >= 2);
   if (err != 0) { ctx.label("fit:error-returned"); return; }
   ctx.label("fit:success");
   FitCase cc = c;
   cc.cons.clear();
   cc.opt = OptC(); // no option applies to the sills-only entry points
-  validate(cc, *m, c.api == 0 ? "sills-old" : "sills-new", ctx, true);
+  validate(cc, *m, api == 0 ? "sills-old" : "sills-new", ctx, true);
 }
 VERIF_SUB(fit_sills, FitCase, genSills, runSills);
 
@@ -1316,7 +1328,7 @@ struct VMapCase
 static VMapCase genVMap()
 {
   VMapCase c;
-  c.nvar = G::pick({1, 1, 2});
+  c.nvar = G::pct(8) ? 2 : 1; // the map fit only accepts one variable (two contradictory checks on the number of maps): nvar 2 must fail cleanly
   c.nx = G::sz(10, 24);
   c.ny = G::sz(10, 24);
   c.dx = G::pick({1., 0.01, 50.});
@@ -1404,7 +1416,7 @@ static void runVMap(const VMapCase& c, Ctx& ctx)
   ctx.at("Model::fitFromVMap");
   int err = 0;
   try { err = m->fitFromVMap(vmap.get(), types, cs, ov, ma, verboseMode()); }
-  catch (const LibExit&) { throw; }
+  catch (const LibExit&) { ctx.fail("vmap:lib-exit", "Model::fitFromVMap called the library's exit function (messageAbort)"); return; }
   catch (const std::exception& e) { ctx.fail("vmap:exception:" + excKey(e), std::string("Model::fitFromVMap let an exception escape: ") + e.what()); return; }
   Hash h;
   h.add(toText(c.opt)).add(c.nvar).add(c.nx).add(c.ny).add(c.simSeed).add(c.half);
